@@ -219,18 +219,28 @@ func backPremsTL(v ordabs.Value) []string {
 }
 
 func c02Input(c *core.Ctx) {
-	f := c.MustFunc(rC02Input, "engine", "engine.eval")
+	X := hv("X")
+	c02InputCase(c, "do-transform-pass", "q(X,5,X)", []hTerm{X, hc(5), X}, "[1 5 1 2 5 2]")
+	c02InputCase(c, "do-transform-pass:wildcards", "q(_,5,_)", []hTerm{hv("_"), hc(5), hv("_")}, "[1 5 1 1 5 2 2 5 2]")
+}
+
+func c02InputCase(c *core.Ctx, label, bodyText string, bodyArgs []hTerm, wantRows string) {
+	c02InputCaseRule(c, rC02Input, label, bodyText, bodyArgs, wantRows)
+}
+
+func c02InputCaseRule(c *core.Ctx, rule, label, bodyText string, bodyArgs []hTerm, wantRows string) {
+	f := c.MustFunc(rule, "engine", "engine.eval")
 	if f == nil {
 		return
 	}
 	prog := absProgram{"aggregation", nil, nil}
-	e := newEngineFix(c, rC02Input, prog, 0)
+	e := newEngineFix(c, rule, prog, 0)
 	if e == nil {
 		return
 	}
 	q := &clauseKit{k: e.k, ck: e.ck}
 	// do-rule: cnt(N) :- q(X, 5, X) |> do fn:group_by(), let N = fn:count().
-	do := q.clause(hClause{headPred: "cnt", head: []hTerm{hv("N")}, hasDo: true, doKeys: []string{}, prems: []hPrem{{kind: "atom", pred: "q", args: []hTerm{hv("X"), hc(5), hv("X")}}}})
+	do := q.clause(hClause{headPred: "cnt", head: []hTerm{hv("N")}, hasDo: true, doKeys: []string{}, prems: []hPrem{{kind: "atom", pred: "q", args: bodyArgs}}})
 	rules := []ordabs.Value{do}
 	e.engine.Fields["programInfo"].(*ordabs.Obj).Fields["Rules"] = &ordabs.Slice{Elems: &rules}
 	type row struct{ a, b, cc int64 }
@@ -306,7 +316,7 @@ func c02Input(c *core.Ctx) {
 		return orig(in, recv, args)
 	}
 	_, _, returned, err := e.runEval(f, 400000)
-	if !runORD(c, rC02Input, f.Name, f, err) {
+	if !runORD(c, rule, f.Name, f, err) {
 		return
 	}
 	var problems []string
@@ -317,15 +327,15 @@ func c02Input(c *core.Ctx) {
 		problems = append(problems, "the aggregating rule was evaluated as an ordinary rule before the fixpoint (it would aggregate partial results)")
 	}
 	sort.Strings(rowsSeen)
-	if fmt.Sprint(rowsSeen) != "[1 5 1 2 5 2]" {
-		problems = append(problems, fmt.Sprintf("store holds q(1,5,1) q(1,5,2) q(2,5,2) q(3,6,3); the rule body q(X,5,X) was given the rows %v (store queried with %v), want exactly [1 5 1, 2 5 2]", rowsSeen, queries))
+	if fmt.Sprint(rowsSeen) != wantRows {
+		problems = append(problems, fmt.Sprintf("store holds q(1,5,1) q(1,5,2) q(2,5,2) q(3,6,3); the rule body %s was given the rows %v (store queried with %v), want exactly %s", bodyText, rowsSeen, queries, wantRows))
 	}
 	if !emitted {
 		problems = append(problems, "the transform was not applied")
-	} else if !e.stores[e.engine.Fields["store"].(*ordabs.Obj)]["cnt(2)"] {
+	} else if !e.stores[e.engine.Fields["store"].(*ordabs.Obj)][fmt.Sprintf("cnt(%d)", len(rowsSeen))] {
 		problems = append(problems, "the emitted fact was not added to the store")
 	}
-	c.Check(len(problems) == 0, rC02Input, f.Name+":do-transform-pass", f.Decl.Pos(), "rows = stored facts unifying with the body atom; applied after the fixpoint; result stored", strings.Join(problems, "; "))
+	c.Check(len(problems) == 0, rule, f.Name+":"+label, f.Decl.Pos(), "rows = stored facts unifying with the body atom; applied after the fixpoint; result stored", strings.Join(problems, "; "))
 }
 
 func c02Group(c *core.Ctx) {
